@@ -513,6 +513,13 @@ def run_unit(uid: str, known_findings: dict, timeout_ms: int, both_solvers=False
         ctx = Ctx(u, known_findings, timeout_ms)
         u.run(ctx)
         ctx.adopt_engine_obligations()
+        # a raising path is replayed with the unit's own mirror: calling the real function on the counter-model must
+        # raise (the mirror runner turns an exception into a confirmation when `no_exception` is set)
+        unit_replay = next((o.replay for o in ctx.obligations if o.replay), None)
+        if unit_replay is not None:
+            for o in ctx.obligations:
+                if o.replay is None and ("/no-raise" in o.name or "no-raise" in o.name.split("/")[-1]):
+                    o.replay = dict(unit_replay, no_exception=True)
         rec["exec_s"] = round(time.time() - t0, 3)
         rec["functions"] = {k: {"file": v[0], "line": v[1]} for k, v in ctx.ex.functions_seen.items()}
         rec["obligations"] = []
